@@ -756,6 +756,7 @@ int cif_parse_internal(struct scanner_s *scanner, int not_utf8, const char *extr
     scanner->buffer = (UChar *) malloc(BUF_SIZE_INITIAL * sizeof(UChar));
     scanner->buffer_size = BUF_SIZE_INITIAL;
     scanner->buffer_limit = 0;
+    scanner->cr_pending = CIF_FALSE;
 
     if (scanner->buffer == NULL) {
         SET_RESULT(CIF_MEMORY_ERROR);
@@ -3109,13 +3110,17 @@ static int get_first_char(struct scanner_s *scanner) {
             *scanner->buffer = UCHAR_NL;
 
             /* try to convert one more character, to check for CRLF */
-            nread = scanner->read_func(scanner->char_source, scanner->buffer + 1, scanner->buffer_size - 1,
-                    &read_error);
+            nread = scanner->read_func(scanner->char_source, scanner->buffer + 1, 1, &read_error);
             if (nread < 0) {
                 return read_error;
             } else if (nread == 0) {
                 scanner->at_eof = CIF_TRUE;  /* but don't return CIF_EOF, because we do provide one character */
             } else if (*(scanner->buffer + 1) != UCHAR_NL) {
+                if (*(scanner->buffer + 1) == UCHAR_CR) {
+                    /* another line terminator; convert it, too, and watch for a following LF */
+                    *(scanner->buffer + 1) = UCHAR_NL;
+                    scanner->cr_pending = CIF_TRUE;
+                }
                 scanner->buffer_limit += 1;
             } /* else the buffer limit will overall be increased by 1 only, effectively consuming the NL */
 
@@ -3189,62 +3194,45 @@ static int get_more_chars(struct scanner_s *scanner) {
         scanner->buffer_limit = current_chars;
     } /* else just append to the currently buffered data */
 
-    /* once EOF has been detected, don't attempt to read from the character source any more */
-    nread = scanner->at_eof ? 0 : scanner->read_func(scanner->char_source, scanner->buffer + scanner->buffer_limit,
-                scanner->buffer_size - scanner->buffer_limit, &read_error);
+    for (;;) {
+        /* once EOF has been detected, don't attempt to read from the character source any more */
+        nread = scanner->at_eof ? 0 : scanner->read_func(scanner->char_source, scanner->buffer + scanner->buffer_limit,
+                    scanner->buffer_size - scanner->buffer_limit, &read_error);
 
-    if (nread < 0) {
-        return read_error;
-    } else if (nread == 0) {
-        scanner->at_eof = CIF_TRUE;
-        return CIF_EOF;
-    } else {
-        /* convert line terminators */
-        UChar *lead = scanner->buffer + scanner->buffer_limit; /* a pointer to the character being probed */
-        UChar *bound = lead + nread;
-        UChar *trail;
-        UChar *dest;
+        if (nread < 0) {
+            return read_error;
+        } else if (nread == 0) {
+            scanner->at_eof = CIF_TRUE;
+            return CIF_EOF;
+        } else {
+            /* convert line terminators: both CR LF and lone CR become LF */
+            UChar *start = scanner->buffer + scanner->buffer_limit;
+            UChar *bound = start + nread;
+            UChar *src = start;
+            UChar *dest = start;
 
-        do {
-            lead = u_memchr(lead, UCHAR_CR, bound - lead);
-            if ((!lead) || ((lead + 1 < bound) && (*(lead + 1) == UCHAR_NL))) {
-                break;
-            } else {
-                *lead = UCHAR_NL;
+            if (scanner->cr_pending && (*src == UCHAR_NL)) {
+                /* this LF completes a CR LF pair whose CR ended the previous read; the pair is already converted */
+                src += 1;
             }
-        } while (CIF_TRUE);
+            scanner->cr_pending = (*(bound - 1) == UCHAR_CR);
 
-        dest = lead;
-        while (lead) {
-            ptrdiff_t length;
-
-            trail = ++lead;  /* trail points to the LF of the latest-read CRLF terminator */
-            do {
-                assert(lead <= bound);
-                lead = u_memchr(lead, UCHAR_CR, bound - lead);  /* look for the next CR */
-                if (!lead) {
-                    /* end of input */
-                    length = bound - trail;
-                    break;
-                } else if ((lead + 1 < bound) && (*(lead + 1) == UCHAR_NL)) {
-                    /* end of CRLF-terminated line */
-                    nread -= 1; /* CRLF will be converted to just LF */
-                    length = lead - trail;
-                    break;
+            for (; src < bound; src += 1) {
+                if (*src == UCHAR_CR) {
+                    *(dest++) = UCHAR_NL;
+                    if ((src + 1 < bound) && (*(src + 1) == UCHAR_NL)) {
+                        src += 1;
+                    }
                 } else {
-                    /* bare CR is translated to LF without any need to move other data */
-                    *lead = UCHAR_NL;
+                    *(dest++) = *src;
                 }
-            } while (CIF_TRUE);
+            }
 
-            /* convert one line terminator */
-            u_memmove(dest, trail, length);
-            dest += length;
+            if (dest > start) {
+                /* bookkeeping */
+                scanner->buffer_limit = (size_t) (dest - scanner->buffer);
+                return CIF_OK;
+            } /* else only the second half of a split CR LF pair was read; go around for more */
         }
-
-        /* bookkeeping */
-        scanner->buffer_limit += nread;
-
-        return CIF_OK;
     }
 }
